@@ -91,3 +91,60 @@ func init() {
 		MinDistinct: 10,
 	})
 }
+
+// linCase: a short stress history whose recorded API history is checked for linearizability against the sequential
+// admission model with porcupine (per pipeline), plus the offline log checkers
+func linCase(c *CaseCtx, props ...string) *CaseResult {
+	o := drv.StressOpts{Schedulers: 3, Cancelers: 2, Readers: 2, OpsPerClient: 7 + c.Idx%6, FailProb: 0.1, MaxPauseUs: 120, Parker: c.Idx%3 == 0}
+	sr := drv.RunStress(c.Seed, o)
+	res := &CaseResult{Idx: c.Idx, Events: sr.Events, Inconclusive: sr.Inconclusive, Extra: map[string]int{}}
+	keep := func(f drv.Finding) {
+		for _, p := range props {
+			if f.Has(p) {
+				res.Findings = append(res.Findings, f)
+				return
+			}
+		}
+	}
+	for _, f := range sr.Findings {
+		keep(f)
+	}
+	if sr.Inconclusive == "" {
+		names := map[string]string{}
+		for i := range sr.Final.Jobs {
+			names[sr.Final.Jobs[i].ID] = fmt.Sprintf("J%d", i+1)
+		}
+		verdict, fs, nops := drv.CheckLinearizable(sr, func(id string) string {
+			if n, ok := names[id]; ok {
+				return n
+			}
+			if len(id) > 8 {
+				return id[:8]
+			}
+			return id
+		})
+		res.Extra["lin_"+verdict]++
+		res.Extra["lin_ops"] += nops
+		res.Evaluations += nops
+		for _, f := range fs {
+			keep(f)
+		}
+		res.Situations = append(res.Situations, fmt.Sprintf("linearizability %s ops~%d", verdict, nops/10*10))
+	}
+	var pairs []string
+	for k := range sr.Overlap {
+		pairs = append(pairs, k)
+	}
+	sort.Strings(pairs)
+	for _, p := range pairs {
+		res.Situations = append(res.Situations, "overlap "+p)
+	}
+	if len(res.Findings) > 0 {
+		res.Inconclusive = ""
+		res.Sample = sr.Sample
+		if res.Sample == nil {
+			res.Sample = map[string]any{"seed": c.Seed, "finding": res.Findings[0].Detail}
+		}
+	}
+	return res
+}
